@@ -96,6 +96,20 @@ def getBytes? (j : Json) (k : String) : Option (List Nat) :=
 def pairsJson (ps : List (List Nat × List Nat)) : Json :=
   Json.arr (ps.map (fun (k, v) => Json.arr #[natListJson k, natListJson v])).toArray
 
+def ctJson : CtOutcome → Json
+  | .missing => Json.mkObj [("r", "err"), ("kind", "ct-missing")]
+  | .mismatch => Json.mkObj [("r", "err"), ("kind", "ct-mismatch")]
+  | .ok => Json.mkObj [("r", "ct-ok")]
+
+/-- `"ct": null | absent` = no header; `"ct": [bytes]` = header value. -/
+def ctOf (j : Json) : Option (Option (List Nat)) :=
+  match getVal? j "ct" with
+  | none => some none
+  | some .null => some none
+  | some v => match natList? v with
+    | some bs => if bs.all (· < 256) then some (some bs) else none
+    | none => none
+
 def badOp : Json := Json.mkObj [("r", "bad-op")]
 
 def handle (j : Json) : Json :=
@@ -137,8 +151,17 @@ def handle (j : Json) : Json :=
     | some q, some fields => resultJson 1 (queryRequest fields q)
     | _, _ => badOp
   | some "form" =>
-    match getBytes? j "body", (getStr? j "shape").bind shapeOf with
-    | some b, some fields => resultJson 0 (queryExtract fields b)
+    match getBytes? j "body", (getStr? j "shape").bind shapeOf, ctOf j with
+    | some b, some fields, some ct =>
+      match formBodyExtract fields ct b with
+      | .ok v => resultJson 0 (.ok v)
+      | .error (.de e) => resultJson 0 (.error e)
+      | .error (.ct o) => ctJson o
+    | _, _, _ => badOp
+  | some "ct" =>
+    match getStr? j "kind", ctOf j with
+    | some "json", some ct => ctJson (ctCheck true ct)
+    | some "form", some ct => ctJson (ctCheck false ct)
     | _, _ => badOp
   | _ => badOp
 
